@@ -36,7 +36,10 @@ RULE = (
     "reloaded and exported a second time into the same directory (force=True) and verified again. "
     "One hand-made curated dataset has 300 templates with uint16 ids (thorough: also 257). "
     "Non-trivial: merged with >=3 probes, or a distance tie at "
-    "the cut, or factor != 1, or an emptied cluster id.")
+    "the cut, or factor != 1, or an emptied cluster id."
+    ' Later additions: accessor results edited in place before the export, probe-wise inverse whi'
+    'tening for merged data, templates zero outside a footprint, 1001 templates, a curated whiten'
+    'ed 40-channel probe.')
 ASSUMPTIONS = ['pc-feature stores that hold all spikes', 'float32 storage: rtol 1e-4',
                'merge inputs as in C11/C12']
 
